@@ -17,8 +17,9 @@
 From Coq Require Import ZArith List Bool QArith Qcanon.
 From SG Require Import Base.QcUtil Model.CombiScheme Model.RefTree Model.DimWise
      Proofs.SchemeInv Proofs.RefTreeInv Proofs.RefSelect Proofs.RefRemoveSort Proofs.DimWiseInv Proofs.RefTreeCheck
-     Proofs.Rebalance Proofs.C06Main Proofs.DimWiseTile Proofs.RebalanceSeg Proofs.DimWiseInvRebal Proofs.DimWiseInstallP Proofs.RaiseLoop Proofs.DimWiseTotal.
-From SG Require Import Model.DimWiseInstall.
+     Proofs.Rebalance Proofs.C06Main Proofs.DimWiseTile Proofs.RebalanceSeg Proofs.DimWiseInvRebal Proofs.DimWiseInstallP Proofs.RaiseLoop Proofs.DimWiseTotal Proofs.DimWiseFloatP.
+From SG Require Import Model.DimWiseInstall Model.DimWiseFloat Model.DimWiseWire.
+From Coq Require Import Floats.
 Import ListNotations.
 Open Scope Z_scope.
 
@@ -265,3 +266,25 @@ Proof.
                 = Some [3; 2; 1; 3; 2; 3; 0]) by (vm_compute; reflexivity).
     rewrite E in H. simpl in H. injection H as H. exact H.
 Qed.
+
+(* ---------------------------------------------------------------------------------------------------------- *)
+(* the float-decided rebalancing test (phase 3, item 3).  rb_dec_float is the Python expression
+     abs(pos / (end-start-2) - 0.5) > abs(pos1 / (end-start-2) - 0.5) + safety_factor
+   evaluated operation by operation in IEEE binary64 with Coq's primitive floats.  For the safety factors 0.1, 0, 0.125, 0.25, 0.05
+   and segments of up to 66 intervals (end-start-2 <= 64) the decision function of the model options built by the wire entry IS this
+   binary64 evaluation - from a table computed by Coq (Model/DimWiseFloat.v), whatever the harness supplies beyond the bound.
+   _bounded: the domain (five floats, m <= 64) is finite; beyond it the decision bits are still an input computed by the harness *)
+Theorem C06_rebalance_test_is_binary64_bounded : forall version rebal boundary margin sf dim exc_rb exc_v3 pos pos1 m,
+  certified_sf sf -> (forall t, In t exc_rb -> (RB_BOUND < snd t)%nat) ->
+  (1 <= m <= RB_BOUND)%nat -> (pos < m + 2)%nat -> (pos1 < m + 2)%nat ->
+  o_dec (mk_opts version rebal boundary margin (Qc_of_float sf) dim exc_rb exc_v3) pos pos1 m = rb_dec_float sf pos pos1 m.
+Proof. exact mk_opts_rebalance_test_is_binary64. Qed.
+Print Assumptions C06_rebalance_test_is_binary64_bounded.
+
+(* non-vacuity: with safety factor 0.1 and a segment of 12 intervals (m = 10) the root at position 3 against the child at
+   position 4: exactly, |3/10 - 1/2| = 0.2 is NOT larger than |4/10 - 1/2| + 0.1000000000000000055...; in binary64 it is - the
+   model follows binary64 *)
+Example C06_float_test_nonvacuous :
+  rb_dec_float sf_010 3 4 10 = true /\ rebalance_dec_exact (Qc_of_float sf_010) 3 4 10 = false /\
+  o_dec (mk_opts 6 true true (Q2Qc (9 # 10)) (Qc_of_float sf_010) 2 [] []) 3 4 10 = true.
+Proof. vm_compute. repeat split; reflexivity. Qed.
